@@ -653,9 +653,14 @@ def run(ctx):
                 raise NotUnderstood("visitor lacks channels/data/size locals")
             acc = None
             vnode = None
+            # the validating test is the one written in the "channels" arm of the key loop; a later `debug_assert!(matches!(channels, ..))`
+            # restating the fact is not it
+            early = [n for n in find_all(tab["loop"], lambda n: n.get("k") == "macro" and n["short"] == "matches")]
             for mm in find_all(vfn, lambda n: n.get("k") == "macro" and n["short"] == "matches"):
                 ex = mm.get("extra") or {}
                 if ex.get("scrutinee") and is_path(ex["scrutinee"], cloc):
+                    if vnode is not None and any(vnode is e_ for e_ in early) and not any(mm is e_ for e_ in early):
+                        continue
                     cases = ex["pat"]["cases"] if ex["pat"]["k"] == "or" else [ex["pat"]]
                     acc = {lit_int(c["e"]) for c in cases if c["k"] == "lit"}
                     vnode = mm
